@@ -336,14 +336,18 @@ VARIANTS = [
     {"type": ".scal.Code", "serialize": ".scal.ser_b"},
     {"type": "decimal.Decimal", "parse": ".scal.parse_p"},
 ]
-V_SDL = "scalar X\ntype Query { get(x: X, i: In): Obj }\ntype Obj { x: X xs: [X!] }\ninput In { x: X! xs: [X] }"
-V_OPS = "query G($x: X, $i: In) { get(x: $x, i: $i) { x xs } }\nfragment Fx on Obj { x }\nquery H { get { ...Fx } }"
+V_SDL = "scalar X\ntype Query { get(x: X, i: In): Obj deep(o: Outer, u: Unused): Int }\ntype Obj { x: X xs: [X!] }\ninput In { x: X! xs: [X] }\ninput Outer { label: String inner: Inner }\ninput Inner { when: X! }\ninput Unused { x: X }"
+V_OPS = "query G($x: X, $i: In) { get(x: $x, i: $i) { x xs } }\nfragment Fx on Obj { x }\nquery H { get { ...Fx } }\nquery D($o: Outer) { deep(o: $o) }"
+V_OPS_NESTED_ONLY = "query D($o: Outer) { deep(o: $o) }"
 
 
-def variant_case(v: int, is_async: bool):
-    name = f"p07v{v}{int(is_async)}"
-    r = gen.generate({"schema": V_SDL, "queries": V_OPS, "files": {"scal.py": SCAL},
-                      "config": {"scalars": {"X": VARIANTS[v]}, "files_to_include": ["scal.py"], "target_package_name": name, "async_client": is_async}})
+def variant_case(v: int, is_async: bool, pruned: bool = False):
+    name = f"p07v{v}{int(is_async)}{int(pruned)}"
+    cfg = {"scalars": {"X": VARIANTS[v]}, "files_to_include": ["scal.py"], "target_package_name": name, "async_client": is_async}
+    if pruned:
+        # the scalar occurs only in an input type that is reachable through another input, and unused inputs are pruned
+        cfg.update({"include_all_inputs": False, "include_all_enums": False})
+    r = gen.generate({"schema": V_SDL, "queries": V_OPS_NESTED_ONLY if pruned else V_OPS, "files": {"scal.py": SCAL}, "config": cfg})
     if not r["ok"]:
         return False, f"generation failed: {r['exc_type']}: {r['exc_msg'][:200]}"
     base = tempfile.mkdtemp(prefix="vh07v_", dir="/tmp")
@@ -356,7 +360,7 @@ def variant_case(v: int, is_async: bool):
             f.write(SCAL)  # for the absolute dotted path variant the user's module must be importable, as in real use
         sys.path.insert(0, base)
         try:
-            for m in ["", ".client", ".input_types", ".g", ".h", ".fragments"]:
+            for m in (["", ".client", ".input_types", ".d"] if pruned else ["", ".client", ".input_types", ".g", ".h", ".d", ".fragments"]):
                 importlib.import_module(name + m)
         except Exception as e:
             return False, f"import failed: {type(e).__name__}: {str(e)[:200]}"
@@ -371,13 +375,14 @@ def variant_case(v: int, is_async: bool):
         shutil.rmtree(base, ignore_errors=True)
 
 
-def check_config_variants(v: int, is_async: bool) -> bool:
+def check_config_variants(v: int, is_async: bool, pruned: bool) -> bool:
     """
     post: _
     """
     k = pick(v, len(VARIANTS))
     a = True if is_async else False
+    pr = True if pruned else False
     with NoTracing():
         with opened_auditwall():
-            ok, _ = variant_case(k, a)
+            ok, _ = variant_case(k, a, pr)
     return ok
